@@ -45,7 +45,7 @@ theorem stepInnerA_obj (x x' y : AnyObj) (r : List AnyObj) (io : Bytes) (k' c : 
     (hp : c = 0 ∨ PadOK y) : StepInnerA x (y :: r) io k' x' inner := by
   unfold StepInnerA
   rw [nextA_cons_of_not_raw y r hy]
-  exact ⟨⟨fb, by rw [hc]; exact hin⟩, by rw [hc]; exact hp⟩
+  exact ⟨y.info.1, fb, by rw [hc]; exact hin, .inl rfl, by rw [hc]; exact hp.imp id .inl⟩
 
 /-! ### a link-layer class followed by nothing, a RawPDU or another link-layer class -/
 
@@ -72,10 +72,10 @@ theorem stepInnerA_of_l2 (x x' : L2.Obj) (os : List AnyObj) (io : Bytes) (k' : N
     have hos := L2.next_l2 hn; subst hos
     have hnp := l2_not_pppoe_of_link x y r hlink
     have hc : cut (.l2 x) k' = k' := by simp [cut, L2.padTo, hnp]
-    show (∃ fb, inner = .cls (AnyObj.l2 y).info.1 (io ++ List.replicate (cut (.l2 x) k') 0) fb) ∧
-      (cut (.l2 x) k' = 0 ∨ PadOK (.l2 y))
+    show ∃ n fb, inner = .cls n (io ++ List.replicate (cut (.l2 x) k') 0) fb ∧ EntryName n (.l2 y) ∧
+      (cut (.l2 x) k' = 0 ∨ PadOKN n (.l2 y))
     rw [hc]
-    exact ⟨⟨false, h.1⟩, h.2⟩
+    exact ⟨_, false, h.1, .inl rfl, h.2.imp id .inl⟩
   | bad => rw [hn] at h; exact h.elim
 
 /-- **link-layer step inside the family** (`L2.l2_step`) -/
